@@ -461,7 +461,9 @@ def locate_droplets(
 
     # determine actual threshold
     if threshold == "extrema" or threshold == "auto":
-        threshold = float(phase_field.data.min() + phase_field.data.max()) / 2
+        # (the extrema are converted individually, since their sum can overflow the data
+        # type of integer images, e.g., 8-bit images with bright pixels)
+        threshold = (float(phase_field.data.min()) + float(phase_field.data.max())) / 2
     elif threshold == "mean":
         threshold = float(phase_field.data.mean())
     elif threshold == "otsu":
